@@ -442,6 +442,7 @@ func init() {
 		},
 		"encoding/json.Marshal": func(c *stubCtx) {
 			c.m.Res.Assumptions["encoding/json.Marshal stubbed: returns the opaque text {}"] = true
+			c.m.lastMarshal = c.args[0]
 			s := mkStr("{}")
 			cells := c.m.newCells(2)
 			cells.E[0], cells.E[1] = s.B[0], s.B[1]
@@ -468,6 +469,18 @@ func init() {
 			}
 			c.m.Res.Assumptions["errors.As: wrapped error chains are not followed"] = true
 			c.ret(smt.False)
+		},
+		"(*net/http.Request).UserAgent": func(c *stubCtx) { c.ret(mkStr("")) },
+		"(net/http.Header).Set":          func(c *stubCtx) { c.ret(nil) },
+		"(net/http.Header).Get":          func(c *stubCtx) { c.ret(mkStr("")) },
+		"(net/http.Header).Add":          func(c *stubCtx) { c.ret(nil) },
+		"(net/http.Header).Del":          func(c *stubCtx) { c.ret(nil) },
+		"verifLastMarshal": func(c *stubCtx) {
+			if c.m.lastMarshal == nil {
+				c.ret(Iface{})
+				return
+			}
+			c.ret(c.m.lastMarshal)
 		},
 		"errors.Is": func(c *stubCtx) {
 			// identity comparison only (wrapped chains built by the fmt.Errorf stub are opaque)
